@@ -13,7 +13,7 @@ STORE_INVS = ["TypeOK", "NeverVersionedFlat", "UniqueVids"]
 def store_consts(**kw):
     c = dict(Buckets={"bkt1", "bkt2"}, KeySetName="nest2", Bodies={"x1", "x2"}, OpNames=CORE_OPS,
              CfgName="plain", MaxVids=0, MaxDepth=0, WithEmpty=False, Ghosts=True,
-             PartNums={1, 2}, PartBodies={"p1", "p2"}, MaxUploads=0, MaxList=2)
+             PartNums={1, 2}, PartBodies={"p1", "p2"}, MaxUploads=0, MaxList=2, BadBuckets=set())
     c.update(kw)
     return c
 
@@ -489,4 +489,42 @@ def c09(tier, seed, work):
     return rep
 
 
-PLANS = {"C11": c11, "C09": c09, "C07": c07, "C15": c15, "C01": c01, "C12": c12, "C08": c08, "C16": c16, "C17": c17, "C02": c02, "C05": c05, "C03": c03, "C04": c04, "C13": c13, "C06": c06, "C14": c14}
+def c10(tier, seed, work):
+    rep = Report("C10", tier, seed)
+    st = dict(invariants=STORE_INVS, properties=["Frame", "RejectedUnchanged"])
+    ops = {"CreateBucket", "PutObject", "GetObject", "HeadObject", "DeleteObject", "DeleteMulti", "CopyObject", "ListObjects"}
+    # hostile but canonical keys, two buckets, every operation kind, full audit of both buckets after each step
+    for ks in ("hostile1", "hostile2", "hostile3"):
+        tour_stage(rep, work, "keys-" + ks, "MC_Store",
+                   store_consts(KeySetName=ks, Bodies={"x1"}, OpNames=ops - {"CopyObject"} if ks != "hostile1" else ops, Ghosts=False),
+                   ALL4, small=True, **st)
+    tour_stage(rep, work, "keys-single", "MC_Store",
+               store_consts(KeySetName="hostile2", Bodies={"x1"}, CfgName="single", OpNames=ops - {"CreateBucket"}, Ghosts=False),
+               ["singlemem", "singleos"], small=True, **st)
+    # keys with '.', '..' and empty segments are distinct byte strings on the key-value backends
+    tour_stage(rep, work, "keys-dots-kv", "MC_Store",
+               store_consts(Buckets={"bkt1"}, KeySetName="dots", Bodies={"x1"}, OpNames=ops - {"CopyObject", "DeleteMulti"}, Ghosts=False),
+               ["mem", "bolt"], small=True, **st)
+    # the backends' own storage names are never buckets
+    bad = {"_meta", ".", ".."}
+    tour_stage(rep, work, "internal-names", "MC_Store",
+               store_consts(Buckets={"bkt1"}, KeySetName="a", Bodies={"x1"}, BadBuckets=bad,
+                            OpNames={"CreateBucket", "PutObject", "DeleteObject", "ListBuckets"}, Ghosts=False),
+               ["mem", "bolt", "multimem", "multios"], small=True, **st)
+    # path-like keys ('..', './', '//', leading '/', paths into the other bucket or the metadata store): from every
+    # reachable state of two buckets with canary objects, each operation kind with each such key; any complete
+    # reply is admissible, but all canaries, the bucket list and the other bucket's listing must be unchanged
+    tour_stage(rep, work, "escape-keys", "MC_Store",
+               store_consts(KeySetName="a", Bodies={"x1"}, OpNames={"CreateBucket", "PutMeta"}, Ghosts=False),
+               ["multimem", "multios", "mem", "bolt"], small=True, emit=None, invariants=["EmitEscape"])
+    tour_stage(rep, work, "escape-keys-single", "MC_Store",
+               store_consts(Buckets={"bkt1"}, KeySetName="a", Bodies={"x1"}, CfgName="single", OpNames={"PutMeta"}, Ghosts=False),
+               ["singlemem", "singleos"], small=True, emit=None, invariants=["EmitEscape"])
+    rep.assumptions += [
+        "fs backends: keys with '.', '..' or empty path segments may be refused or aliased (tested separately for containment); "
+        "key-value backends must keep all byte strings apart",
+    ]
+    return rep
+
+
+PLANS = {"C11": c11, "C10": c10, "C09": c09, "C07": c07, "C15": c15, "C01": c01, "C12": c12, "C08": c08, "C16": c16, "C17": c17, "C02": c02, "C05": c05, "C03": c03, "C04": c04, "C13": c13, "C06": c06, "C14": c14}
